@@ -352,28 +352,15 @@ def inhabits(rv, t, hier):
   return all(inhabits(e, args[0], hier) for e in rv)
 
 
+_CLASS_REP = {int: 2, bool: True, float: 2.5, complex: 2j, str: "s", bytes: b"b", bytearray: bytearray(b"b"),
+              type(None): None}
+
+
 def _subclass_member(cls, t, hier):
-  """Every instance of the class object `cls` is a member of t (used for Type[t] and class-as-callable)."""
-  k = t[0]
-  if k == "any":
-    return True
-  if k == "union":
-    return any(_subclass_member(cls, o, hier) for o in t[1])
-  if k != "cls":
-    return False
-  name, args = t[1], t[2]
-  if name == "object":
-    return True
-  if name in _PROMOTE:
-    return issubclass(cls, _PROMOTE[name])
-  if hier.is_proto(name):
-    return all(hasattr(cls, m) for m in hier.proto_attrs[name])
-  if name in hier.ns and name not in _BUILTIN_RT and name not in _ABC:
-    return issubclass(cls, hier.ns[name])
-  rt = _BUILTIN_RT.get(name) or _ABC.get(name)
-  if rt is None or not issubclass(cls, rt):
-    return False
-  return True
+  """Every instance of the class object `cls` is a member of t (used for Type[t] and class-as-callable): decided
+  on a representative instance (a non-empty str / bytes, an empty container, cls() for a generated class)."""
+  rep = _CLASS_REP[cls] if cls in _CLASS_REP else cls()
+  return inhabits(rep, t, hier)
 
 
 def eval_val(v, hier):
@@ -1186,3 +1173,69 @@ def near_miss_variants(r, hier, v, cap=6):
   # the LAST-leaf swaps first (they are the most discriminating), then the rest
   out.sort(key=lambda x: {"last": 0, "container": 1, "first": 2, "middle": 3}.get(x[1], 4))
   return out[:cap]
+
+
+# ------------------------------------------------------------------------------------------------
+# Shapes on which compute_one_match's HasCombination re-filter is known to discard a reachable failing view:
+# a set display (also as the argument of frozenset(...)) in which an element with nested variables is followed
+# by an element evaluated at a later CFG node (after a call).  Those pairs are outside the Coq fragment
+# (the CFG solver's visibility answer is not modelled); a missed violation on them is attributed to the named
+# deviation only if the root cause is confirmed on the real matcher (diagnose_refilter).
+
+def _involves_call(v):
+  """Evaluating the expression runs a call (and so moves to a later CFG node)."""
+  k = v[0]
+  if k in ("tupleof", "frozenset", "inst", "bytearray") or (k == "set" and not v[1]):
+    return True
+  if k in ("list", "tuple", "set"):
+    return any(_involves_call(e) for e in v[1])
+  if k == "dict":
+    return any(_involves_call(a) or _involves_call(b) for a, b in v[1])
+  return False
+
+
+def _has_nested_vars(v):
+  return v[0] in ("tupleof", "frozenset") or (v[0] == "tuple" and bool(v[1]))
+
+
+def refilter_shape(v):
+  """A set display (also as the argument of frozenset(...)) in which an element with nested variables (a tuple /
+  tuple(...) / frozenset(...)) is followed by an element whose evaluation involves a call."""
+  k = v[0]
+  if k in ("set", "frozenset"):
+    es = v[1]
+    if any(_has_nested_vars(es[i]) and any(_involves_call(e) for e in es[i + 1:]) for i in range(len(es))):
+      return True
+  if k in ("list", "tuple", "set", "frozenset", "tupleof"):
+    return any(refilter_shape(e) for e in v[1])
+  if k == "dict":
+    return any(refilter_shape(a) or refilter_shape(b) for a, b in v[1])
+  return False
+
+
+def diagnose_refilter(hier, t, v, site):
+  """True iff, while pytype analyses the single (t, v, site) program, some compute_one_match call that must match
+  all views reports success although a view that CanHaveCombination fails to match and HasCombination denies it."""
+  from pytype import datatypes, matcher   # pylint: disable=import-outside-toplevel
+  from pytype.abstract import abstract_utils   # pylint: disable=import-outside-toplevel
+  hits = []
+  orig = matcher.AbstractMatcher.compute_one_match
+  def wrapped(self, var, other_type, name=None, match_all_views=True, keep_all_views=False, alias_map=None):
+    res = orig(self, var, other_type, name, match_all_views, keep_all_views, alias_map)
+    if res.success and match_all_views and res.good_matches and not hits:
+      for view in abstract_utils.get_views([var], self._node):   # pylint: disable=protected-access
+        vals = list(view.values())
+        subst = datatypes.AliasingDict(aliases=alias_map)
+        if (self.match_var_against_type(var, other_type, subst, view) is None
+            and self._node.CanHaveCombination(vals) and not self._node.HasCombination(vals)):   # pylint: disable=protected-access
+          hits.append(1)
+          break
+    return res
+  matcher.AbstractMatcher.compute_one_match = wrapped
+  try:
+    analyse_pairs(hier, [(t, v)], (site,))
+  except Exception:   # pylint: disable=broad-except
+    return False
+  finally:
+    matcher.AbstractMatcher.compute_one_match = orig
+  return bool(hits)
